@@ -227,14 +227,14 @@ Proof. intros HF. induction HF as [|a b l l' H _ IH]; simpl; auto. rewrite H, IH
 
 (* Rule with a DisjointUnion constructor (also EquivalenceRule and EquivalencePathRule,
    whose constructor is a one-child DisjointUnion) *)
-Theorem union_equation_holds0 p kids N :
+Theorem union_equation_old_holds0 p kids N :
   class_wf p -> Forall (kid_wf0 (pars p)) kids -> union_genuine p kids ->
-  match union_equation (cfun pars p) (map (cfun pars) (map fst kids)) (map snd kids) with
+  match union_equation_old (cfun pars p) (map (cfun pars) (map fst kids)) (map snd kids) with
   | Ok lhs rhs => holds (SN N) O V N lhs rhs
   | _ => False
   end.
 Proof.
-  intros Wp Wk G. unfold union_equation.
+  intros Wp Wk G. unfold union_equation_old.
   rewrite <- (map_id (map snd kids)), combine_map_fst_snd, fold_left_map. cbn [fst snd].
   destruct Wp as [NDp [H0p Wt]].
   destruct (sem_kids (SN N) (pars p) kids NDp H0p) as [Ps HPs].
@@ -252,15 +252,84 @@ Proof.
     intros P k [_ HE]. apply HE.
 Qed.
 
-Theorem union_equation_holds p kids N :
+Theorem union_equation_old_holds p kids N :
   class_wf p -> Forall (kid_wf (pars p)) kids -> union_genuine p kids ->
+  match union_equation_old (cfun pars p) (map (cfun pars) (map fst kids)) (map snd kids) with
+  | Ok lhs rhs => holds (SN N) O V N lhs rhs
+  | _ => False
+  end.
+Proof.
+  intros Wp Wk G. apply union_equation_old_holds0; auto.
+  eapply Forall_impl; [|exact Wk]. intros k. apply kid_wf_wf0.
+Qed.
+
+(* ---- the REPAIRED method (fix FIXHASH_EQ): no cover condition.  A child of a rule with its dictionary
+   is well-formed when the dictionary maps parameters of the parent to parameters of the child. *)
+Definition kid_wfd (ppars : list Z) (k : Z * list (Z * Z)) : Prop :=
+  class_wf (fst k) /\ NoDup (map fst (snd k)) /\ incl (map fst (snd k)) ppars /\
+  incl (map snd (snd k)) (pars (fst k)).
+
+Lemma kid_wf0_wfd ppars k : kid_wf0 ppars k -> kid_wfd ppars k.
+Proof. intros [A [B [C [D _]]]]. split; [|split; [|split]]; auto. Qed.
+
+Lemma kid_wf_wfd ppars k : kid_wf ppars k -> kid_wfd ppars k.
+Proof. intros H. apply kid_wf0_wfd, kid_wf_wf0, H. Qed.
+
+Lemma Forall_kid_wf_wfd ppars kids : Forall (kid_wf ppars) kids -> Forall (kid_wfd ppars) kids.
+Proof. intros H. eapply Forall_impl; [|exact H]. intros k. apply kid_wf_wfd. Qed.
+
+Lemma Forall_kid_wf0_wfd ppars kids : Forall (kid_wf0 ppars) kids -> Forall (kid_wfd ppars) kids.
+Proof. intros H. eapply Forall_impl; [|exact H]. intros k. apply kid_wf0_wfd. Qed.
+
+Lemma kid_child_wfd N ppars k : kid_wfd ppars k -> child_wfd (SN N) ppars pars k.
+Proof.
+  intros [Wc [H1 [H2 H3]]]. constructor; auto.
+  - apply Wc.
+  - apply Wc.
+  - intros t Ht. apply (tbl_shape N (fst k) t Wc Ht).
+Qed.
+
+Lemma sem_kids_full (S : Z -> list (list Z * Z)) ppars kids :
+  NoDup ppars -> ~ In 0 ppars -> Forall (child_wfd S ppars pars) kids ->
+  exists Ps, Forall2 (fun k P => sem S O (subs (full_subs (cfun pars (fst k)) (snd k)) (cfun pars (fst k))) = Some P /\
+                                 peqv V P (cser ppars (rekey ppars (pars (fst k)) (snd k) (S (fst k))))) kids Ps.
+Proof.
+  intros ND H0 HF. induction HF as [|k t Hk _ [Ps IH]].
+  - exists []. constructor.
+  - destruct (sem_child_full S O ppars pars k V Hk ND H0) as [P [HP HE]].
+    exists (P :: Ps). constructor; auto.
+Qed.
+
+(* Rule with a DisjointUnion constructor (also EquivalenceRule and EquivalencePathRule, whose constructor
+   is a one-child DisjointUnion): EVERY genuine rule with well-formed dictionaries -- child parameters
+   that no parent parameter is mapped to are summed out (variable := 1), several parent parameters
+   mapped to one child parameter are multiplied *)
+Theorem union_equation_holds p kids N :
+  class_wf p -> Forall (kid_wfd (pars p)) kids -> union_genuine p kids ->
   match union_equation (cfun pars p) (map (cfun pars) (map fst kids)) (map snd kids) with
   | Ok lhs rhs => holds (SN N) O V N lhs rhs
   | _ => False
   end.
 Proof.
-  intros Wp Wk G. apply union_equation_holds0; auto.
-  eapply Forall_impl; [|exact Wk]. intros k. apply kid_wf_wf0.
+  intros Wp Wk G. unfold union_equation.
+  assert (combine (map (cfun pars) (map fst kids)) (map snd kids) =
+          map (fun k => (cfun pars (fst k), snd k)) kids) as E.
+  { clear. induction kids as [|[a b] t IH]; simpl; auto. rewrite IH. reflexivity. }
+  rewrite E, fold_left_map. cbn [fst snd]. clear E.
+  destruct Wp as [NDp [H0p Wt]].
+  destruct (sem_kids_full (SN N) (pars p) kids NDp H0p) as [Ps HPs].
+  { eapply Forall_impl; [|exact Wk]. intros k Hk. apply kid_child_wfd; auto. }
+  unfold holds. rewrite undiv_fold_add by reflexivity. cbn [fst snd].
+  exists (cser (pars p) (SN N p)), (fold_left padd Ps (pconst 0)). split; [apply sem_cfun|]. split.
+  - apply (sem_fold_add (SN N) (fun k => subs (full_subs (cfun pars (fst k)) (snd k)) (cfun pars (fst k))) kids Ps (Const 0) (pconst 0)).
+    + reflexivity.
+    + eapply Forall2_weaken; [|exact HPs]. intros k P [H _]. exact H.
+  - intros m _. rewrite pcoef_fold_padd. unfold SN at 1. rewrite (union_core p kids N m G).
+    assert (pcoef V (pconst 0) m = 0) as Z0.
+    { unfold pcoef, pconst. simpl. destruct (meqb V mzero m); reflexivity. }
+    rewrite Z0. simpl. symmetry. apply psum_Forall2.
+    eapply Forall2_weaken; [|apply Forall2_flip'; exact HPs].
+    intros P k [_ HE]. apply HE.
 Qed.
 
 (* ------------------------------------------------------------ product *)
@@ -302,14 +371,14 @@ Lemma Forall2_map_r {A B C} (P : A -> C -> Prop) (f : B -> C) l l' :
   Forall2 (fun a b => P a (f b)) l l' -> Forall2 P l (map f l').
 Proof. intros H. induction H; simpl; constructor; auto. Qed.
 
-Theorem product_equation_holds0 p kids N :
+Theorem product_equation_old_holds0 p kids N :
   class_wf p -> Forall (pkid_wf0 (pars p)) kids -> product_genuine p kids N ->
-  match product_equation (cfun pars p) (map (cfun pars) (map fst kids)) (map snd kids) with
+  match product_equation_old (cfun pars p) (map (cfun pars) (map fst kids)) (map snd kids) with
   | Ok lhs rhs => holds (SN N) O V N lhs rhs
   | _ => False
   end.
 Proof.
-  intros Wp Wk G. unfold product_equation.
+  intros Wp Wk G. unfold product_equation_old.
   rewrite <- (map_id (map snd kids)).
   assert (combine (map (fun x => x) (map snd kids)) (map (cfun pars) (map fst kids)) =
           map (fun k => (snd k, cfun pars (fst k))) kids) as E.
@@ -330,15 +399,42 @@ Proof.
     eapply Forall2_weaken; [|exact HPs]. intros k P [_ HE]. exact HE.
 Qed.
 
-Theorem product_equation_holds p kids N :
+Theorem product_equation_old_holds p kids N :
   class_wf p -> Forall (pkid_wf (pars p)) kids -> product_genuine p kids N ->
+  match product_equation_old (cfun pars p) (map (cfun pars) (map fst kids)) (map snd kids) with
+  | Ok lhs rhs => holds (SN N) O V N lhs rhs
+  | _ => False
+  end.
+Proof.
+  intros Wp Wk G. apply product_equation_old_holds0; auto.
+  eapply Forall_impl; [|exact Wk]. intros k [A B]. split; [apply kid_wf_wf0|]; auto.
+Qed.
+
+(* Rule with a CartesianProduct constructor, REPAIRED method: every genuine rule with well-formed
+   dictionaries (no injectivity, no cover condition) *)
+Theorem product_equation_holds p kids N :
+  class_wf p -> Forall (kid_wfd (pars p)) kids -> product_genuine p kids N ->
   match product_equation (cfun pars p) (map (cfun pars) (map fst kids)) (map snd kids) with
   | Ok lhs rhs => holds (SN N) O V N lhs rhs
   | _ => False
   end.
 Proof.
-  intros Wp Wk G. apply product_equation_holds0; auto.
-  eapply Forall_impl; [|exact Wk]. intros k [A B]. split; [apply kid_wf_wf0|]; auto.
+  intros Wp Wk G. unfold product_equation.
+  assert (combine (map snd kids) (map (cfun pars) (map fst kids)) =
+          map (fun k => (snd k, cfun pars (fst k))) kids) as E.
+  { clear. induction kids as [|[a b] t IH]; simpl; auto. rewrite IH. reflexivity. }
+  rewrite E, fold_left_map. cbn [fst snd]. clear E.
+  destruct Wp as [NDp [H0p Wt]].
+  destruct (sem_kids_full (SN N) (pars p) kids NDp H0p) as [Ps HPs].
+  { eapply Forall_impl; [|exact Wk]. intros k Hk. apply kid_child_wfd; auto. }
+  unfold holds. rewrite undiv_fold_mul by reflexivity. cbn [fst snd].
+  exists (cser (pars p) (SN N p)), (fold_left pmul Ps pone). split; [apply sem_cfun|]. split.
+  - apply (sem_fold_mul (SN N) (fun k => subs (full_subs (cfun pars (fst k)) (snd k)) (cfun pars (fst k))) kids Ps (Const 1) pone).
+    + reflexivity.
+    + eapply Forall2_weaken; [|exact HPs]. intros k P [H _]. exact H.
+  - intros m Hm. unfold SN at 1. rewrite (G m Hm). symmetry.
+    apply (prod_left_congr Ps). apply Forall2_map_r. apply Forall2_flip'.
+    eapply Forall2_weaken; [|exact HPs]. intros k P [_ HE]. exact HE.
 Qed.
 
 (* ------------------------------------------------------------ reverse rules *)
@@ -346,11 +442,11 @@ Qed.
    ReverseRule.get_equation returns the ORIGINAL rule's equation *)
 Lemma rev_union_fallback o idx :
   any_params (o_eps o) = true -> rule_equation pars (RRevUnion o idx) = rule_equation pars (RUnion o).
-Proof. intros H. simpl. unfold complement_equation. rewrite H. reflexivity. Qed.
+Proof. intros H. unfold rule_equation. simpl. unfold complement_equation. rewrite H. reflexivity. Qed.
 
 Lemma rev_product_fallback o idx :
   any_params (o_eps o) = true -> rule_equation pars (RRevProduct o idx) = rule_equation pars (RProduct o).
-Proof. intros H. simpl. unfold quotient_equation. rewrite H. reflexivity. Qed.
+Proof. intros H. unfold rule_equation. simpl. unfold quotient_equation. rewrite H. reflexivity. Qed.
 
 (* parameter-free case: the Sub / Div forms *)
 Definition no_params (p : Z) (cs : list Z) : Prop := pars p = [] /\ forall c, In c cs -> pars c = [].
@@ -469,7 +565,7 @@ Qed.
 (* EquivalenceRule(union rule): DisjointUnion(parent, (child,), (extra_parameters[child_idx],)) *)
 Theorem equiv_equation_holds o cidx N :
   let p := o_parent o in let c := nth cidx (o_children o) (-1) in let ep := nth cidx (o_eps o) [] in
-  class_wf p -> kid_wf (pars p) (c, ep) -> union_genuine p [(c, ep)] ->
+  class_wf p -> kid_wfd (pars p) (c, ep) -> union_genuine p [(c, ep)] ->
   match rule_equation pars (REquivUnion o cidx) with
   | Ok lhs rhs => holds (SN N) O V N lhs rhs
   | _ => False
@@ -482,13 +578,13 @@ Qed.
 (* EquivalencePathRule: a one-child DisjointUnion with the composed dictionary *)
 Theorem path_equation_holds p steps c ep N :
   path_eps (pars p) steps = Some ep ->
-  class_wf p -> kid_wf (pars p) (c, ep) -> union_genuine p [(c, ep)] ->
+  class_wf p -> kid_wfd (pars p) (c, ep) -> union_genuine p [(c, ep)] ->
   match rule_equation pars (RPath p steps c) with
   | Ok lhs rhs => holds (SN N) O V N lhs rhs
   | _ => False
   end.
 Proof.
-  intros E Wp Wk G. cbn [rule_equation]. rewrite E.
+  intros E Wp Wk G. unfold rule_equation. cbn [rule_equation_with]. rewrite E.
   exact (union_equation_holds p [(c, ep)] N Wp (Forall_cons _ Wk (Forall_nil _)) G).
 Qed.
 
@@ -516,7 +612,7 @@ Theorem atom_equation_holds c m N :
   | _ => False
   end.
 Proof.
-  intros Hp Hm HV G. cbn [rule_equation]. rewrite Hp. unfold holds. cbn [undiv fst snd].
+  intros Hp Hm HV G. unfold rule_equation; cbn [rule_equation_with]. rewrite Hp. unfold holds. cbn [undiv fst snd].
   eexists. eexists. split; [apply sem_cfun|]. split.
   { cbn [sem]. destruct (Z.ltb_spec m 0); [lia|]. reflexivity. }
   intros mu Hmu. rewrite Hp. unfold SN. rewrite pcoef_cser_tbl_id.
@@ -556,7 +652,7 @@ Theorem empty_equation_holds c N :
   | _ => False
   end.
 Proof.
-  intros G. cbn [rule_equation]. unfold holds. cbn [undiv fst snd].
+  intros G. unfold rule_equation; cbn [rule_equation_with]. unfold holds. cbn [undiv fst snd].
   eexists. eexists. split; [apply sem_cfun|]. split; [reflexivity|].
   intros mu _. unfold SN. rewrite pcoef_cser_tbl_id.
   rewrite psum_zero.
@@ -575,7 +671,7 @@ Theorem verified_equation_holds c N :
   | _ => False
   end.
 Proof.
-  intros G. cbn [rule_equation]. unfold holds. cbn [undiv fst snd].
+  intros G. unfold rule_equation; cbn [rule_equation_with]. unfold holds. cbn [undiv fst snd].
   eexists. eexists. split; [apply sem_cfun|]. split; [reflexivity|]. exact G.
 Qed.
 
@@ -631,7 +727,7 @@ Qed.
 Theorem product_collision_refuted :
   class_wf cx_pars cx_T 0 /\ Forall (kid_wf cx_pars cx_T (cx_pars 0)) cx_kids /\
   product_genuine cx_pars cx_T cx_V 0 cx_kids 1 /\
-  ~ match product_equation (cfun cx_pars 0) (map (cfun cx_pars) (map fst cx_kids)) (map snd cx_kids) with
+  ~ match product_equation_old (cfun cx_pars 0) (map (cfun cx_pars) (map fst cx_kids)) (map snd cx_kids) with
     | Ok lhs rhs => holds (SN cx_T 1) (fun _ => []) cx_V 1 lhs rhs
     | _ => False
     end.
